@@ -6,9 +6,11 @@
 import ALV.Lemmas.C04Index
 import ALV.Lemmas.C04PS
 import ALV.Lemmas.C04Sparse
+import ALV.Lemmas.C04Pipeline
 import ALV.Common.Audit
 
 set_option linter.unusedSectionVars false
+set_option linter.unusedSimpArgs false
 namespace ALV.Props.C04
 open ALV.C04
 variable {K : Type} [Field K] [DecidableEq K]
@@ -281,6 +283,20 @@ theorem compile_iterates_terms (num : Terms K) (a0 : K) (r : Terms K)
         ++ (r.map (fun kv => denAtoms kv.1.toNat [kv.2])).flatten := by
   rw [numAtoms_dense num hsn hrn, denAtoms_dense a0 r hsd hrd]
 
+/-- **C04.6'** (`call_given_memory`): with a list / generator memory of sufficient length the
+result is the difference equation whose `y[-k]` is literally the k-th item of the *given*
+memory (items beyond the filter order are never read). -/
+theorem call_given_memory (num den : Terms K) (l : List K) (zero : K) (xs : List K)
+    (hc : ∀ kv ∈ num ++ den, 0 ≤ kv.1) (h0 : coefAt den 0 ≠ 0)
+    (hnz : ¬ ((∀ c ∈ dense num, c = 0) ∧ (∀ c ∈ (dense den).tail, c = 0)))
+    (hl : (dense den).tail.length ≤ l.length) :
+    call num den (Mem.iter l) zero xs
+      = .ok (fspec (dense num) (dense den).tail (coefAt den 0) zero l [] xs) := by
+  rw [call_eq_spec num den _ zero xs hc h0 hnz, memory_sufficient zero _ l hl]
+  congr 1
+  apply fspec_congr_hy
+  simp [List.take_take]
+
 /-! ### non-vacuity -/
 
 /-- the `ZFilter` docstring: `ZFilter([1, 1], [1, -1])([1, 5, -4, -7, 9], memory=[3], zero=0)` -/
@@ -304,16 +320,88 @@ example : DiffEq [1, -1, 0, 3] (2 : ℚ) [1, -1, 0, 5] 0 [1, 2, 3, 4] [2, 4, 6]
 example : call [((0 : Int), (1 : ℚ)), (1, 1)] [(0, 1), (1, -1)] (Mem.iter [3]) 0 [1, 5, -4, -7, 9]
     = .ok [4, 10, 11, 0, 2] := by decide +kernel
 
--- PENDING
-/-- Full statement not proved yet: the model pipeline from raw constructor arguments (sorted
-dictionary inserts, zero compaction, `values()`) equals the contract `specCall` written with
-plain look-ups, for every memory of sufficient length.  Today this equality is carried by the
-tie: the driver evaluates both sides on every generated case and the harness compares each with
-the real code. -/
-def filterCall_eq_specCall_pending : Prop :=
-  ∀ (numPairs denPairs : List (Int × K)) (mem : List K) (zero : K) (xs : List K),
-    (∀ n d, normalise (mkPoly numPairs) (mkPoly denPairs) = .ok (n, d) → (dense d).length - 1 ≤ mem.length) →
-    filterCall numPairs denPairs (Mem.iter mem) zero xs = specCall numPairs denPairs (Mem.iter mem) zero xs
+/-! ### C04.10 end to end: constructor arguments to outputs -/
+
+/-- **C04.10** (`filterCall_eq_specCall`): for every pair of raw constructor arguments
+(lists sent as `enumerate`, dictionaries with any integer powers in any order, duplicates, stored
+zeros), every memory (none, finite, endless, callable — too short ones included, both sides
+LEFT-pad them), every zero value and every input, the code-shaped pipeline — sorted dictionary
+inserts, zero compaction, normalisation by `min` power, causality and gain checks, `values()`,
+memory normalisation, generated source, its execution — returns exactly what the contract
+`specCall` says: `ValueError` for an empty denominator or a negative delay, the zero value per
+input for the all-zero filter, the solution of the difference equation otherwise. -/
+theorem filterCall_eq_specCall (numPairs denPairs : List (Int × K)) (mem : Mem K) (zero : K)
+    (xs : List K) :
+    filterCall numPairs denPairs mem zero xs = specCall numPairs denPairs mem zero xs := by
+  unfold filterCall specCall
+  rw [← minKey_mkPoly denPairs]
+  cases hmin : minKey (mkPoly denPairs) with
+  | none => simp [normalise, hmin]; rfl
+  | some p =>
+    rw [normalise_ok _ _ p hmin]
+    show call (shiftKeys p (mkPoly numPairs)) (shiftKeys p (mkPoly denPairs)) mem zero xs = _
+    have hminl : listMin (keys (mkPoly denPairs)) = some p := by rw [← minKey_eq_listMin]; exact hmin
+    obtain ⟨hpmem, hple⟩ : p ∈ keys (mkPoly denPairs) ∧ ∀ k ∈ keys (mkPoly denPairs), p ≤ k := by
+      rcases listMin_spec (keys (mkPoly denPairs)) with ⟨h1, _⟩ | ⟨q, h1, h2, h3⟩
+      · rw [h1] at hminl; simp at hminl
+      · rw [h1] at hminl
+        have : q = p := by simpa using hminl
+        subst this; exact ⟨h2, h3⟩
+    by_cases hany : (keysNZ numPairs).any (fun k => decide (k < p)) = true
+    · -- a numerator term at a negative delay after normalisation
+      simp only [hany, if_true]
+      obtain ⟨k, hk, hlt⟩ := List.any_eq_true.1 hany
+      have hk' : k ∈ keys (mkPoly numPairs) := (mem_keys_mkPoly numPairs k).2 hk
+      obtain ⟨kv, hkv, hkk⟩ := List.mem_map.1 hk'
+      apply noncausal
+      refine ⟨(kv.1 - p, kv.2), ?_, ?_⟩
+      · simp only [List.mem_append, shiftKeys, List.mem_map]
+        exact Or.inl ⟨kv, hkv, rfl⟩
+      · have : k < p := by simpa using hlt
+        simp only; omega
+    · simp only [hany, Bool.false_eq_true, if_false]
+      have hcausal : ∀ kv ∈ shiftKeys p (mkPoly numPairs) ++ shiftKeys p (mkPoly denPairs), 0 ≤ kv.1 := by
+        intro kv hkv
+        simp only [List.mem_append, shiftKeys, List.mem_map] at hkv
+        rcases hkv with ⟨kv', hm, rfl⟩ | ⟨kv', hm, rfl⟩
+        · have hk : kv'.1 ∈ keysNZ numPairs :=
+            (mem_keys_mkPoly numPairs kv'.1).1 (List.mem_map.2 ⟨kv', hm, rfl⟩)
+          have : ¬ (kv'.1 < p) := by
+            intro hlt
+            exact hany (List.any_eq_true.2 ⟨kv'.1, hk, by simpa using hlt⟩)
+          simp only; omega
+        · have := hple kv'.1 (List.mem_map.2 ⟨kv', hm, rfl⟩)
+          simp only; omega
+      have ha0 : coefAt (shiftKeys p (mkPoly denPairs)) 0 = coefLast denPairs p := by
+        rw [coefAt_shiftKeys, coefAt_mkPoly]; simp
+      have ha0ne : coefAt (shiftKeys p (mkPoly denPairs)) 0 ≠ 0 := by
+        rw [ha0]
+        exact (mem_keysNZ_iff denPairs p).1 ((mem_keys_mkPoly denPairs p).1 hpmem)
+      have hb : dense (shiftKeys p (mkPoly numPairs)) = coeffsFrom numPairs p := dense_shift_mkPoly _ _
+      have ha : dense (shiftKeys p (mkPoly denPairs)) = coeffsFrom denPairs p := dense_shift_mkPoly _ _
+      by_cases hz : (∀ c ∈ coeffsFrom numPairs p, c = 0) ∧ (∀ c ∈ (coeffsFrom denPairs p).tail, c = 0)
+      · -- the all-zero filter
+        have hz' : ((coeffsFrom numPairs p).all (fun c => c == 0) = true)
+            ∧ ((coeffsFrom denPairs p).tail.all (fun c => c == 0) = true) :=
+          ⟨(all_beq_zero _).2 hz.1, (all_beq_zero _).2 hz.2⟩
+        simp only [hz', and_self, if_true]
+        have hcheck : checkCausal (shiftKeys p (mkPoly numPairs)) (shiftKeys p (mkPoly denPairs)) = true := by
+          simp only [checkCausal, Bool.not_eq_true', List.any_eq_false]
+          intro kv hm
+          have := hcausal kv hm
+          simp; omega
+        simp only [call, hcheck, Bool.not_true, Bool.false_eq_true, if_false, ha0ne]
+        rw [dense_cons _ ha0ne, hb]
+        rw [allzero _ _ _ _ _ _ hz.1 (by rw [ha]; exact hz.2)]
+        congr 1
+        exact (List.map_const' ..).symm
+      · have hz' : ¬ (((coeffsFrom numPairs p).all (fun c => c == 0) = true)
+            ∧ ((coeffsFrom denPairs p).tail.all (fun c => c == 0) = true)) := by
+          intro h
+          exact hz ⟨(all_beq_zero _).1 h.1, (all_beq_zero _).1 h.2⟩
+        simp only [hz', if_false]
+        rw [call_eq_spec _ _ mem zero xs hcausal ha0ne (by rw [hb, ha]; exact hz)]
+        rw [ha0, hb, ha, fspec_specMem]
 
 end ALV.Props.C04
 
